@@ -10,7 +10,7 @@ import vlib
 from checks import apicheck
 from gen_api import hx
 
-MODELLED_SKIP = {"QUIT", "BLPOP", "BRPOP", "MULTI", "EXEC", "DISCARD", "SUBSCRIBE"}
+MODELLED_SKIP = {"QUIT", "BLPOP", "BRPOP", "MULTI", "EXEC", "DISCARD", "SUBSCRIBE"}   # QUIT: its reply never arrives (FINDINGS.md D-1; scripted `quit` cases)
 OPERANDS = [b"k", b"1", b"-1", b"0", b"abc", b"", b"2", b"(1", b"inf", b"NX", b"COUNT", b"MATCH", b"LIMIT", b"WITHSCORES", b"BEFORE", b"5", b"x y", b"\r\n"]
 
 
@@ -67,12 +67,30 @@ def sweep(ctx, names):
     return ops
 
 
+def geo_real_data_cases(c):
+    """the GEO commands on a key whose members lie in neighbouring geohash boxes and far apart, with every option
+    combination"""
+    ops = []
+    for radius, unit in (("1", "km"), ("100", "m"), ("500", "km"), ("0", "km"), ("200", "mi")):
+        for center in (("0", "0"), ("15", "37")):
+            for opts in ([], ["WITHDIST"], ["WITHCOORD"], ["WITHHASH"], ["WITHCOORD", "WITHDIST", "WITHHASH"], ["COUNT", "1"], ["COUNT", "2", "ASC"], ["COUNT", "3", "DESC", "WITHDIST"],
+                         ["COUNT", "1", "ANY"], ["ASC"], ["DESC", "WITHCOORD"], ["COUNT", "0"], ["COUNT", "-1"], ["COUNT"], ["WITHDIST", "COUNT", "1", "WITHCOORD"]):
+                ops.append(c("GEORADIUS", "gk", *center, radius, unit, *opts))
+        for member in ("ne", "Palermo", "nobody"):
+            for opts in ([], ["WITHDIST"], ["WITHCOORD", "WITHDIST", "WITHHASH"], ["COUNT", "1"], ["COUNT", "2", "DESC", "WITHDIST"], ["WITHDIST", "KM"]):
+                ops.append(c("GEORADIUSBYMEMBER", "gk", member, radius, unit, *opts))
+    for cmd in (("GEOPOS", "gk", "ne", "nobody", "Palermo"), ("GEOHASH", "gk", "ne", "nobody"), ("GEODIST", "gk", "ne", "sw"), ("GEODIST", "gk", "ne", "sw", "km"), ("GEODIST", "gk", "ne", "nobody"),
+                ("GEODIST", "gk", "ne", "sw", "parsec"), ("GEOPOS", "nokey", "x"), ("GEOPOS", "s", "x"), ("GEORADIUS", "s", "0", "0", "1", "km"), ("GEORADIUS", "nokey", "0", "0", "1", "km", "COUNT", "1")):
+        ops.append(c(*cmd))
+    return ops
+
+
 def special_sweep(ctx, names):
     """(1) every command of the dispatch table queued inside MULTI and run by EXEC (a handler that replies
     outside the queued closure answers twice at queue time and leaves a hole in EXEC's array);
-    (2) the GEO commands - which have no reply model - on a key whose members lie in neighbouring geohash
-    boxes and far apart, with every option combination. Checked on the implementation alone: the tokens
-    read before the pipelined marker are exactly one complete RESP value."""
+    (2) the GEO commands on a key whose members lie in neighbouring geohash boxes and far apart, with every
+    option combination. Checked on the implementation alone: the tokens read before the pipelined marker are
+    exactly one complete RESP value (the same GEO cases are compared with the model in the `georeal` stream)."""
     rng = ctx.rng
     c = lambda *a: "resp c1 " + " ".join(hx(x) for x in a)
     setup = [("SET", "s", "10"), ("RPUSH", "l", "a", "b", "c"), ("HSET", "h", "f", "1", "g", "2"), ("SADD", "t", "a", "b"), ("ZADD", "z", "1", "a", "2", "b"),
@@ -85,17 +103,7 @@ def special_sweep(ctx, names):
         for arity in (0, 1, 2, 3):
             for args in (args_for.get(arity) or [[]])[: (2 if ctx.tier == "quick" else 4)]:
                 ops += [c("MULTI"), c(name, *args), c("EXEC")]
-    for radius, unit in (("1", "km"), ("100", "m"), ("500", "km"), ("0", "km"), ("200", "mi")):
-        for center in (("0", "0"), ("15", "37")):
-            for opts in ([], ["WITHDIST"], ["WITHCOORD"], ["WITHHASH"], ["WITHCOORD", "WITHDIST", "WITHHASH"], ["COUNT", "1"], ["COUNT", "2", "ASC"], ["COUNT", "3", "DESC", "WITHDIST"],
-                         ["COUNT", "1", "ANY"], ["ASC"], ["DESC", "WITHCOORD"], ["COUNT", "0"], ["COUNT", "-1"], ["COUNT"], ["WITHDIST", "COUNT", "1", "WITHCOORD"]):
-                ops.append(c("GEORADIUS", "gk", *center, radius, unit, *opts))
-        for member in ("ne", "Palermo", "nobody"):
-            for opts in ([], ["WITHDIST"], ["WITHCOORD", "WITHDIST", "WITHHASH"], ["COUNT", "1"], ["COUNT", "2", "DESC", "WITHDIST"], ["WITHDIST", "KM"]):
-                ops.append(c("GEORADIUSBYMEMBER", "gk", member, radius, unit, *opts))
-    for cmd in (("GEOPOS", "gk", "ne", "nobody", "Palermo"), ("GEOHASH", "gk", "ne", "nobody"), ("GEODIST", "gk", "ne", "sw"), ("GEODIST", "gk", "ne", "sw", "km"), ("GEODIST", "gk", "ne", "nobody"),
-                ("GEODIST", "gk", "ne", "sw", "parsec"), ("GEOPOS", "nokey", "x"), ("GEOPOS", "s", "x"), ("GEORADIUS", "s", "0", "0", "1", "km"), ("GEORADIUS", "nokey", "0", "0", "1", "km", "COUNT", "1")):
-        ops.append(c(*cmd))
+    ops += geo_real_data_cases(c)
     return ops
 
 
@@ -200,6 +208,13 @@ def run(ctx, proofs_ok):
     if ctx.violations:
         return
     vlib.correspond_stream(ctx, vlib.build_harness(ctx), geo_table(ctx), "geoarith", "float subtraction / division / conversions, decimal text, geohash encode / decode / interleave on limits, neighbours of limits and random operands (real code against the model's exact arithmetic)", shrink=False)
+    if ctx.violations:
+        return
+    c1 = lambda *a: "resp c1 " + " ".join(hx(x) for x in a)
+    geo_ops = ["open a mem", "conn c1", c1("SET", "s", "10"),
+               c1("GEOADD", "gk", "0.0001", "0.0001", "ne", "-0.0001", "0.0001", "nw", "0.0001", "-0.0001", "se", "-0.0001", "-0.0001", "sw", "13.361389", "38.115556", "Palermo", "15.087269", "37.502669", "Catania")]
+    geo_ops += geo_real_data_cases(c1) + ["dump"]
+    vlib.correspond_stream(ctx, vlib.build_harness(ctx), geo_ops, "georeal", "GEO commands on real data (neighbouring boxes, far apart), every option combination: replies against the model (members and distances relational, coordinates as bit patterns, hashes exact)")
     if ctx.violations:
         return
     vlib.correspond_stream(ctx, vlib.build_harness(ctx), quit_cases(), "quit", "QUIT, CLIENT, CONFIG, INFO, SAVE and GEOADD / GEOHASH queued in MULTI: scripted cases on four connections")
